@@ -953,8 +953,13 @@ func runCase(t *rapid.T, kind string) {
 		// are not in the mailbox the operation reads positions from, and not the operation's own target
 		var ok []string
 
+		known := map[string]bool{}
+		for _, m := range op.Known {
+			known[m] = true // (a batch that announces this message again counts on the server still having it)
+		}
+
 		for _, m := range live {
-			if m != op.Target && (op.Box == "" || bd.st.Boxes[op.Box] == nil || bd.st.Boxes[op.Box].index(m) < 0) {
+			if m != op.Target && !known[m] && (op.Box == "" || bd.st.Boxes[op.Box] == nil || bd.st.Boxes[op.Box].index(m) < 0) {
 				ok = append(ok, m)
 			}
 		}
